@@ -29,7 +29,16 @@ def load_detector(detector: Detector, filename: str | Path) -> None:
             f" '{type(detector).__name__}', expected '{type(new_detector).__name__}'"
         )
 
-    detector = new_detector
+    # Replace the data containers of the running detector by the loaded ones
+    detector._scene = new_detector._scene
+    detector._photon = new_detector._photon
+    detector._charge = new_detector._charge
+    detector._pixel = new_detector._pixel
+    detector._signal = new_detector._signal
+    detector._image = new_detector._image
+    detector._data = new_detector._data
+    if hasattr(new_detector, "_phase"):  # only for 'MKID'
+        detector._phase = new_detector._phase
 
 
 def save_detector(detector: Detector, filename: str | Path) -> None:
